@@ -17,6 +17,7 @@ import (
 	"os/exec"
 	"sort"
 	"strings"
+	"sync"
 	"time"
 
 	dragonboat "github.com/lni/dragonboat/v4"
@@ -251,10 +252,21 @@ type liveSpec struct {
 
 func gen(a vh.Args) {
 	r := vh.NewRand(a.Seed)
-	w := vh.Create(a.Cases)
-	defer w.Close()
+	// recorded runs of real NodeHosts first in the cases file (their counterexamples are
+	// reported first), the in-process cases after them
+	final := vh.Create(a.Cases)
+	inproc := a.Cases + ".inproc"
+	w := vh.Create(inproc)
+	defer func() {
+		w.Close()
+		for _, l := range vh.ReadLines(inproc) {
+			final.Printf("%s\n", l)
+		}
+		final.Close()
+		_ = os.Remove(inproc)
+	}()
 	nS, nE, nT := 300, 120, 150
-	specs := []liveSpec{{false, 2}}
+	specs := []liveSpec{{false, 2}, {true, 2}}
 	if a.Tier == "thorough" {
 		nS, nE, nT = 3000, 1000, 1500
 		specs = []liveSpec{{false, 2}, {true, 2}, {false, 1}, {true, 1}, {false, 3}, {true, 3}, {false, 2}, {true, 2}}
@@ -269,97 +281,128 @@ func gen(a vh.Args) {
 	if os.Getenv("C04_NO_LIVE") != "" {
 		specs = nil
 	}
+	// Every run against real NodeHosts is a child process (a crash of the library under the
+	// fault schedule must not take the case generation down with it); they run in parallel
+	// with each other and with the in-process generation below. One retry with another
+	// sub-seed; a second crash fails the generation loudly with the head of the child's output.
+	type job struct {
+		lines []string
+		logs  []string
+		fatal string
+	}
+	var jobs []*job
+	var wg sync.WaitGroup
+	sem := make(chan struct{}, 3)
+	launch := func(f func(j *job)) {
+		j := &job{}
+		jobs = append(jobs, j)
+		wg.Add(1)
+		go func() {
+			defer wg.Done()
+			sem <- struct{}{}
+			defer func() { <-sem }()
+			f(j)
+		}()
+	}
+	childLogs := func(j *job, out string) {
+		for _, l := range strings.Split(strings.TrimSpace(out), "\n") {
+			if strings.HasPrefix(l, "c04:") {
+				j.logs = append(j.logs, l)
+			}
+		}
+	}
 	for i, sp := range specs {
-		// each live run is a child process: a crash of the library under the fault schedule
-		// must not take the case generation down with it. One retry (other sub-seed); a second
-		// crash fails the generation loudly with the head of the child's output.
-		var lines []string
-		var lastOut string
-		ok := false
-		for attempt := 0; attempt < 2 && !ok; attempt++ {
-			tmp := fmt.Sprintf("%s/live_%d_%d.txt", a.Out, i, attempt)
-			cmd := exec.Command(os.Args[0], "live", "-seed", fmt.Sprint(a.Seed*1000+uint64(i)+uint64(attempt)*500), "-tier", a.Tier, "-cases", tmp, "-out", a.Out)
-			cmd.Env = append(os.Environ(), fmt.Sprintf("C04_LIVE_SPEC=%d,%v,%d", i, sp.tan, sp.exec))
-			outb, err := cmd.CombinedOutput()
-			lastOut = string(outb)
-			if err == nil {
-				lines = vh.ReadLines(tmp)
-				ok = true
-				for _, l := range strings.Split(strings.TrimSpace(lastOut), "\n") {
-					if strings.HasPrefix(l, "c04:") {
-						fmt.Fprintln(os.Stderr, l)
-					}
+		i, sp := i, sp
+		launch(func(j *job) {
+			var lastOut string
+			for attempt := 0; attempt < 2; attempt++ {
+				tmp := fmt.Sprintf("%s/live_%d_%d.txt", a.Out, i, attempt)
+				cmd := exec.Command(os.Args[0], "live", "-seed", fmt.Sprint(a.Seed*1000+uint64(i)+uint64(attempt)*500), "-tier", a.Tier, "-cases", tmp, "-out", a.Out)
+				cmd.Env = append(os.Environ(), fmt.Sprintf("C04_LIVE_SPEC=%d,%v,%d", i, sp.tan, sp.exec))
+				outb, err := cmd.CombinedOutput()
+				lastOut = string(outb)
+				if err == nil {
+					j.lines = vh.ReadLines(tmp)
+					childLogs(j, lastOut)
+					_ = os.Remove(tmp)
+					return
 				}
-			} else {
 				head := lastOut
 				if len(head) > 6000 {
 					head = head[:6000]
 				}
-				_ = os.WriteFile(fmt.Sprintf("/verif/.work/c04_live_crash_%d.txt", time.Now().Unix()), []byte(head), 0644)
-				fmt.Fprintf(os.Stderr, "c04: live run %d attempt %d crashed: %v\n", i, attempt, err)
+				_ = os.WriteFile(fmt.Sprintf("/verif/.work/c04_live_crash_%d_%d.txt", time.Now().Unix(), i), []byte(head), 0644)
+				j.logs = append(j.logs, fmt.Sprintf("c04: live run %d attempt %d crashed: %v", i, attempt, err))
+				_ = os.Remove(tmp)
 			}
-			_ = os.Remove(tmp)
-		}
-		if !ok {
-			head := lastOut
-			if len(head) > 2500 {
-				head = head[:2500]
+			if len(lastOut) > 2500 {
+				lastOut = lastOut[:2500]
 			}
-			fmt.Fprintf(os.Stderr, "c04: live run %d failed twice:\n%s\n", i, head)
-			os.Exit(1)
-		}
-		for _, l := range lines {
-			w.Printf("%s\n", l)
-		}
-		// snapshots (regular + exported), log compaction, restart: this store, and the other one
+			j.fatal = fmt.Sprintf("c04: live run %d failed twice:\n%s", i, lastOut)
+		})
+		// snapshots (regular + exported), log compaction, restart; NotifyCommit with a held save:
+		// this store, and the other one
 		for jj, t := range []bool{sp.tan, !sp.tan, sp.tan, !sp.tan} {
-			j := jj % 2
+			jj, t := jj, t
+			jx := jj % 2
 			kind := "export"
 			fkey := "5.1"
 			if jj >= 2 {
 				kind, fkey = "notify", "7.1"
 			}
-			if j == 1 && a.Tier != "thorough" && i > 0 {
-				continue
+			if jx == 1 && a.Tier != "thorough" {
+				continue // quick: each store once (the other live spec covers the other store)
 			}
-			tmp := fmt.Sprintf("%s/%s_%d_%d.txt", a.Out, kind, i, j)
-			_ = os.Remove(tmp + ".partial")
-			got := false
-			for attempt := 0; attempt < 2 && !got; attempt++ {
-				cmd := exec.Command(os.Args[0], "export", "-seed", fmt.Sprint(a.Seed*1000+uint64(i*10+jj)+uint64(attempt)*500), "-tier", a.Tier, "-cases", tmp, "-out", a.Out)
-				cmd.Env = append(os.Environ(), fmt.Sprintf("C04_EXPORT_SPEC=%d,%d,%v,%s", i, j, t, kind))
-				outb, err := cmd.CombinedOutput()
-				if err == nil {
-					for _, l := range vh.ReadLines(tmp) {
-						w.Printf("%s\n", l)
-					}
-					for _, l := range strings.Split(strings.TrimSpace(string(outb)), "\n") {
-						if strings.HasPrefix(l, "c04:") {
-							fmt.Fprintln(os.Stderr, l)
-						}
-					}
-					got = true
-				} else if pl, perr := os.ReadFile(tmp + ".partial"); perr == nil && len(pl) > 0 {
-					// the process died while the replica was restarting from what its store holds:
-					// the trace recorded up to the restart plus "replica not restartable"
-					w.Printf("%s ; F k=%s i=0\n", strings.TrimRight(string(pl), "\n"), fkey)
-					fmt.Fprintf(os.Stderr, "c04: "+kind+" run %d/%d: the process died during the restart of the replica\n", i, j)
-					got = true
-				} else {
-					head := string(outb)
-					if len(head) > 2500 {
-						head = head[:2500]
-					}
-					fmt.Fprintf(os.Stderr, "c04: "+kind+" run %d/%d attempt %d crashed: %v\n%s\n", i, j, attempt, err, head)
-				}
-				_ = os.Remove(tmp)
+			launch(func(j *job) {
+				tmp := fmt.Sprintf("%s/%s_%d_%d.txt", a.Out, kind, i, jx)
 				_ = os.Remove(tmp + ".partial")
-			}
-			if !got {
-				os.Exit(1)
-			}
+				var lastOut string
+				for attempt := 0; attempt < 2; attempt++ {
+					cmd := exec.Command(os.Args[0], "export", "-seed", fmt.Sprint(a.Seed*1000+uint64(i*10+jj)+uint64(attempt)*500), "-tier", a.Tier, "-cases", tmp, "-out", a.Out)
+					cmd.Env = append(os.Environ(), fmt.Sprintf("C04_EXPORT_SPEC=%d,%d,%v,%s", i, jx, t, kind))
+					outb, err := cmd.CombinedOutput()
+					lastOut = string(outb)
+					if err == nil {
+						j.lines = vh.ReadLines(tmp)
+						childLogs(j, lastOut)
+						_ = os.Remove(tmp)
+						return
+					}
+					if pl, perr := os.ReadFile(tmp + ".partial"); perr == nil && len(pl) > 0 {
+						// the process died while the replica was restarting from what its store holds:
+						// the trace recorded up to the restart plus "replica not restartable"
+						j.lines = []string{fmt.Sprintf("%s ; F k=%s i=0", strings.TrimRight(string(pl), "\n"), fkey)}
+						j.logs = append(j.logs, fmt.Sprintf("c04: %s run %d/%d: the process died during the restart of the replica", kind, i, jx))
+						_ = os.Remove(tmp)
+						_ = os.Remove(tmp + ".partial")
+						return
+					}
+					j.logs = append(j.logs, fmt.Sprintf("c04: %s run %d/%d attempt %d crashed: %v", kind, i, jx, attempt, err))
+					_ = os.Remove(tmp)
+					_ = os.Remove(tmp + ".partial")
+				}
+				if len(lastOut) > 2500 {
+					lastOut = lastOut[:2500]
+				}
+				j.fatal = fmt.Sprintf("c04: %s run %d/%d failed twice:\n%s", kind, i, jx, lastOut)
+			})
 		}
 	}
+	defer func() {
+		wg.Wait()
+		for _, j := range jobs {
+			for _, l := range j.logs {
+				fmt.Fprintln(os.Stderr, l)
+			}
+			if j.fatal != "" {
+				fmt.Fprintln(os.Stderr, j.fatal)
+				os.Exit(1)
+			}
+			for _, l := range j.lines {
+				final.Printf("%s\n", l)
+			}
+		}
+	}()
 	nU := 150
 	if a.Tier == "thorough" {
 		nU = 2000
@@ -371,6 +414,16 @@ func gen(a vh.Args) {
 	}
 	sort.Strings(pk)
 	fmt.Fprintf(os.Stderr, "c04: %d single-peer scenarios over the real raft.Peer: %s\n", nU, strings.Join(pk, " "))
+	on := genOnDiskCases(r, w, a.Tier)
+	var ok []string
+	for k, v := range on {
+		ok = append(ok, fmt.Sprintf("%s=%d", k, v))
+	}
+	sort.Strings(ok)
+	fmt.Fprintf(os.Stderr, "c04: on-disk state machine runs over the real rsm.StateMachine: %s\n", strings.Join(ok, " "))
+	if on["ondisk_errors"] > 0 {
+		os.Exit(1)
+	}
 	dn := genProbeCases(r, w, a.Tier, peerTraces)
 	var dk []string
 	for k, v := range dn {
@@ -414,7 +467,7 @@ func exportChild(a vh.Args) {
 		tag = "n"
 	}
 	line := func(evs []event) string {
-		return fmt.Sprintf("L%d%s%d live %s tan=%v | %s\n", i, tag, j, kind, tan, eventsStr(evs))
+		return fmt.Sprintf("0L%d%s%d live %s tan=%v | %s\n", i, tag, j, kind, tan, eventsStr(evs))
 	}
 	partial := func(evs []event) {
 		_ = os.WriteFile(a.Cases+".partial", []byte(line(evs)), 0644)
@@ -469,7 +522,7 @@ func liveChild(a vh.Args) {
 	fmt.Fprintf(os.Stderr, "c04: live run %d logdb=%s exec=%d: %s\n", i, db, ex, strings.Join(nk, " "))
 	w := vh.Create(a.Cases)
 	for h, evs := range traces {
-		w.Printf("L%dh%d live logdb=%s exec=%d | %s\n", i, h+1, db, ex, eventsStr(evs))
+		w.Printf("0L%dh%d live logdb=%s exec=%d | %s\n", i, h+1, db, ex, eventsStr(evs))
 	}
 	w.Close()
 }
@@ -576,6 +629,33 @@ func run(a vh.Args) {
 			}
 			out.Printf("%s eng %s\n", id, strings.Join(append(append(pre, mid...), post...), " "))
 			st.Case(id, len(us) > 1, line)
+		case "ondisk":
+			i := strings.Index(rest, "| ")
+			body := ""
+			if i >= 0 {
+				body = rest[i+2:]
+			}
+			var oevs []oev
+			if p := vh.Catch(func() { oevs = parseOevs(body) }); p != "" {
+				out.Printf("%s malformed\n", id)
+				continue
+			}
+			pos, code, synced, snap, msg := odsmMonitor(oevs)
+			if code == 0 {
+				out.Printf("%s od ok synced=%d snap=%d\n", id, synced, snap)
+			} else {
+				out.Printf("%s od bad@%d:%d synced=%d snap=%d\n", id, pos, code, synced, snap)
+				st.Count("verdict_" + ocodeText[code])
+				st.Violation(id, msg)
+			}
+			nsnap := 0
+			for _, e := range oevs {
+				st.Count("ondisk_" + e.kind)
+				if e.kind == "ON" {
+					nsnap++
+				}
+			}
+			st.Case(id, nsnap > 0, line)
 		case "live", "trace":
 			i := strings.Index(rest, "| ")
 			body := ""
